@@ -135,6 +135,20 @@ func CmdLock(cfg RunConfig) int {
 	}
 	SolveAll(fast, dir, to)
 	SolveAll(slow, dir, 180)
+	// vacuity guard at lock time: the hypothesis (path condition) of every discharged obligation must be satisfiable
+	var vac []*Obligation
+	for _, o := range res.Obls {
+		if !o.Cover && o.Status == "discharged" && o.Hyp.Op != "true" && o.Result.Solver != "simplifier" {
+			vac = append(vac, &Obligation{Name: o.Name + "/hyp-sat", Cover: true, Hyp: o.Hyp, Goal: True, Pos: o.Pos})
+		}
+	}
+	SolveAll(vac, dir, 5)
+	vacuous := map[string]bool{}
+	for _, v := range vac {
+		if v.Status == "cover-unsat" {
+			vacuous[strings.TrimSuffix(v.Name, "/hyp-sat")] = true
+		}
+	}
 	findings := ReadFindings(filepath.Join(cfg.VerifDir, "known-findings.txt"))
 	known := map[string]bool{}
 	for _, f := range findings {
@@ -163,6 +177,13 @@ func CmdLock(cfg RunConfig) int {
 		}
 		seen[o.Name] = true
 		st := o.Status
+		if vacuous[o.Name] {
+			fmt.Printf("VACUOUS (contradictory path condition): %s\n", o.Name)
+			bad++
+			st = "undecided"
+			lines = append(lines, fmt.Sprintf("%s %s %s %dms", o.Name, st, "vacuous", o.Result.Ms))
+			continue
+		}
 		switch {
 		case st == "discharged" || st == "cover-sat":
 		case o.Cover && st != "cover-unsat":
@@ -170,9 +191,9 @@ func CmdLock(cfg RunConfig) int {
 		case known[o.Name]:
 			st = "known-finding"
 		default:
-			fmt.Printf("NOT LOCKED (status %s): %s\n", o.Status, o.Name)
+			fmt.Printf("UNDECIDED on the unchanged tree (status %s): %s\n", o.Status, o.Name)
 			bad++
-			continue
+			st = "undecided"
 		}
 		lines = append(lines, fmt.Sprintf("%s %s %s %dms", o.Name, st, o.Result.Solver, o.Result.Ms))
 	}
